@@ -73,109 +73,58 @@ pub fn compose_opts_for(rng: &mut util::Rng) -> ComposeOpts {
 /// the library (never wac's decoded types). `None` means "no known cause applies".
 pub fn classify_failure(
     msg: &str,
-    define: bool,
+    _define: bool,
     graph: &CompositionGraph,
     lib: Option<&witgen::Library>,
 ) -> Option<&'static str> {
     let lib = lib?;
-    let comp_of = |node: wac_graph::NodeId| -> Option<&witgen::CompModel> {
-        let pkg = graph[node].package()?;
-        let name = graph[pkg].name().to_string();
-        lib.comps.iter().find(|c| c.name == name)
-    };
-    let insts: Vec<wac_graph::NodeId> = graph
-        .node_ids()
-        .filter(|n| matches!(graph[*n].kind(), wac_graph::NodeKind::Instantiation(_)))
-        .collect();
-    if !define && (msg.starts_with("missing import named") || msg.contains("has no export named")) {
-        // cause: the component type written for an imported dependency whose exported
-        // interface `use`s a type of another interface that the same component exports
-        for n in &insts {
-            if let Some(c) = comp_of(*n) {
-                let exported: Vec<&str> = c.world.exports.iter().map(|e| e.extern_name()).collect();
-                for e in &exported {
-                    for y in witgen::use_closure(&lib.pkgs, e) {
-                        if exported.contains(&y.as_str()) {
-                            return Some("imported-dependency-type:exported-interface-uses-type-of-another-exported-interface");
-                        }
-                    }
-                }
-            }
-        }
-    }
-    if msg.contains("resource types are not the same") {
-        // cause: one instantiation receives interface X from one provider and the interface Y
-        // whose resource X uses from a different provider (or one of them from the implicit
-        // import and the other from an instance / explicit import)
-        for n in &insts {
-            let Some(c) = comp_of(*n) else { continue };
-            let args: Vec<(String, wac_graph::NodeId)> =
-                graph.get_instantiation_arguments(*n).map(|(a, s)| (a.to_string(), s)).collect();
-            // provider: None = implicit import; Some(None) = explicit import node; Some(Some(i)) = alias of instance i
-            let provider = |name: &str| -> Option<Option<wac_graph::NodeId>> {
-                args.iter().find(|(a, _)| a == name).map(|(_, s)| graph.get_alias_source(*s).map(|(i, _)| i))
-            };
-            // every import of the package binary (explicit or implied by `use`), read by D1
-            let import_names: Vec<String> = c.decoded.imports.iter().map(|i| i.name.clone()).collect();
-            for x in &import_names {
-                let px = provider(x);
-                let mut stack = vec![x.clone()];
-                let mut seen: Vec<String> = vec![];
-                while let Some(cur) = stack.pop() {
-                    if seen.contains(&cur) {
-                        continue;
-                    }
-                    seen.push(cur.clone());
-                    if let Some(ci) = witgen::find_iface(&lib.pkgs, &cur) {
-                        for u in &ci.uses {
-                            let y = &u.source_id;
-                            let py = provider(y);
-                            let consistent = match (&px, &py) {
-                                (None, None) => true,
-                                (Some(Some(a)), Some(Some(b))) => a == b,
-                                _ => false,
-                            };
-                            if !consistent && has_resource(&lib.pkgs, y) {
-                                return Some("instantiation-arguments-mix-resource-providers");
-                            }
-                            stack.push(y.clone());
-                        }
-                    }
-                }
-            }
-        }
+    // The zones are deliberately coarse (message family + a feature of the generated library):
+    // the composition builder keeps random cases out of them (compose::ComposeOpts::avoid_known),
+    // so only rare leftovers and the directed witnesses land here.
+    if msg.contains("resource types are not the same") && lib_has_cross_interface_resource_use(lib) {
+        // one instantiation receives interface X from one provider and the interface Y whose
+        // resource X uses from another provider (or from the implicit import)
+        return Some("instantiation-arguments-mix-resource-providers");
     }
     if msg.contains("instance not valid to be used as export") {
-        let exports_instantiation = graph.node_ids().any(|n| {
-            matches!(graph[n].kind(), wac_graph::NodeKind::Instantiation(_)) && graph[n].export_name().is_some()
+        // an exported instance (alias of an instance export, or a whole instantiation) whose
+        // interface uses a type that has no name at the root of the composition
+        let exports_instance_with_uses = graph.node_ids().any(|n| {
+            let node = &graph[n];
+            if node.export_name().is_none() {
+                return false;
+            }
+            match node.kind() {
+                wac_graph::NodeKind::Instantiation(_) => true,
+                wac_graph::NodeKind::Alias => graph
+                    .get_alias_source(n)
+                    .map(|(_, export)| !witgen::use_closure(&lib.pkgs, export).is_empty())
+                    .unwrap_or(false),
+                _ => false,
+            }
         });
-        if exports_instantiation {
-            return Some("exported-instantiation-not-valid-as-export");
+        if exports_instance_with_uses {
+            return Some("exported-instance-uses-types-not-named-at-root");
         }
     }
     None
 }
 
+pub fn lib_has_cross_interface_resource_use(lib: &witgen::Library) -> bool {
+    lib.pkgs.iter().any(|p| {
+        p.ifaces.iter().any(|i| {
+            i.uses.iter().any(|u| u.is_resource || type_mentions_resource(&lib.pkgs, &u.source_id, &u.name, 0))
+        })
+    })
+}
+
 /// Attributes an encode panic to a known cause (model-based), returning a signature suffix.
-fn classify_panic(file: &str, message: &str, define: bool, lib: Option<&witgen::Library>) -> String {
+fn classify_panic(file: &str, message: &str, _define: bool, lib: Option<&witgen::Library>) -> String {
     let Some(lib) = lib else { return String::new() };
-    if !define && file == "encoding.rs" && message.contains("no entry found for key") {
-        // cause: an interface re-exports (`type a = b`) a *used* type whose definition mentions a
-        // resource of the source interface; the component type written for an imported dependency
-        // re-encodes the definition structurally where that resource is not in scope
-        for p in &lib.pkgs {
-            for i in &p.ifaces {
-                for (_, d) in &i.types {
-                    if let witgen::TypeDef::Alias(witgen::Ty::Named(n)) = d {
-                        if let Some(u) = i.uses.iter().find(|u| u.as_name.as_ref().unwrap_or(&u.name) == n) {
-                            if !u.is_resource && type_mentions_resource(&lib.pkgs, &u.source_id, &u.name, 0) {
-                                return ":alias-of-used-type-that-mentions-a-resource".into();
-                            }
-                        }
-                    }
-                }
-            }
-        }
+    if file == "encoding.rs" && message.contains("no entry found for key") && lib_has_cross_interface_resource_use(lib) {
+        // a type that mentions a resource of another interface is re-encoded structurally in a
+        // scope where that resource is not available (e.g. `type a = b` with `b` a used type)
+        return ":used-type-mentioning-a-resource-re-encoded-out-of-scope".into();
     }
     String::new()
 }
@@ -222,6 +171,7 @@ fn type_mentions_resource(pkgs: &[witgen::Pkg], iface_id: &str, name: &str, dept
     ty_mentions_resource(pkgs, i, &witgen::Ty::Named(name.to_string()), depth)
 }
 
+#[allow(dead_code)]
 fn has_resource(pkgs: &[witgen::Pkg], id: &str) -> bool {
     witgen::find_iface(pkgs, id)
         .map(|i| i.types.iter().any(|(_, d)| matches!(d, witgen::TypeDef::Resource { .. })) || i.uses.iter().any(|u| u.is_resource))
@@ -309,7 +259,38 @@ pub fn check_graph(ctx: &mut Ctx, case: u64, graph: &CompositionGraph, input: &s
     }
 }
 
+/// Directed witnesses of the recorded findings (run by whichever worker owns their case id).
+fn run_witnesses(ctx: &mut Ctx) {
+    for (i, script) in crate::witness::scripts().iter().enumerate() {
+        let case = crate::witness::WITNESS_BASE + i as u64;
+        if !ctx.mine(case) {
+            continue;
+        }
+        ctx.begin(case);
+        let lib = match crate::witness::build_library(script) {
+            Ok(l) => l,
+            Err(e) => {
+                ctx.count("witness-build-failed");
+                ctx.note("witness_error", json!(format!("{}: {e:#}", script.name)));
+                continue;
+            }
+        };
+        match crate::witness::run_script(script, &lib) {
+            Ok(built) => {
+                ctx.count("witness-run");
+                let input = json!({"witness": script.name, "library": witgen::library_text(&lib), "ops": compose::ops_json(&built.ops)});
+                check_graph(ctx, case, &built.graph, &input, Some(&lib));
+            }
+            Err(e) => {
+                ctx.count("witness-script-rejected");
+                ctx.note("witness_error", json!(format!("{}: {e}", script.name)));
+            }
+        }
+    }
+}
+
 pub fn run(ctx: &mut Ctx) {
+    run_witnesses(ctx);
     let total = ctx.n(20_000, 2_000_000);
     for case in ctx.cases(total) {
         if ctx.out_of_budget() {
